@@ -113,6 +113,17 @@ class Effects(object):
 
     def table_of(self, f, e, at=None):
         """Table name an expression denotes inside function f (or None)."""
+        key = (id(f), id(e))
+        busy = self.__dict__.setdefault('_table_of_busy', set())
+        if key in busy or len(busy) > 200:
+            return None        # self-referential definitions (q = q.join())
+        busy.add(key)
+        try:
+            return self._table_of(f, e, at)
+        finally:
+            busy.discard(key)
+
+    def _table_of(self, f, e, at=None):
         m = f.module
         if isinstance(e, ast.Name):
             # local alias: reaching definitions
